@@ -152,6 +152,8 @@ pub struct SyncCase {
     pub nrep: usize,
     pub keys: Vec<K>,
     pub evs: Vec<Ev>,
+    /// `Yf`: large case - observe only after the last event
+    pub final_only: bool,
 }
 /// `Y <base> <max|pw> <nrep> <keys> <events>`; digest width fixed at 16; value digest = LE64(v) ++ 0^8
 pub fn parse_sync_case(toks: &[&str]) -> SyncCase {
@@ -178,6 +180,7 @@ pub fn parse_sync_case(toks: &[&str]) -> SyncCase {
         nrep: toks[3].parse().unwrap(),
         keys: parse_keys(toks[4], 16),
         evs,
+        final_only: toks[0] == "Yf",
     }
 }
 pub fn vh(v: u64) -> Val {
@@ -240,7 +243,7 @@ pub fn observe_sync(c: &SyncCase) -> String {
         let mut reps: Vec<Replica> =
             (0..c.nrep).map(|_| Replica { store: BTreeMap::new(), tree: new_tree::<16>(c.base) }).collect();
         for (i, e) in c.evs.iter().enumerate() {
-            if i > 0 {
+            if i > 0 && !c.final_only {
                 out.push(';');
             }
             match e {
@@ -259,6 +262,9 @@ pub fn observe_sync(c: &SyncCase) -> String {
                         pull(&mut reps, &c.keys, *d, *s, c.merge_max);
                     }
                 }
+            }
+            if c.final_only && i + 1 != c.evs.len() {
+                continue;
             }
             for (j, rp) in reps.iter().enumerate() {
                 if j > 0 {
